@@ -54,12 +54,17 @@ _FROZEN = False
 
 def _freeze_once() -> None:
     """Move everything that exists so far out of the collector's reach: the full collections made
-    at every retention probe then only look at what the scenario created (0.5 ms instead of 15)."""
+    at every retention probe then only look at what the scenario created (0.5 ms instead of 15).
+    No collection first: traversing the heap inherited from the parent would copy all its pages."""
     global _FROZEN
     if not _FROZEN:
-        gc.collect()
         gc.freeze()
         _FROZEN = True
+
+
+def run_item(item: dict) -> dict:
+    """pmap entry point: one scenario together with its wrapper configuration."""
+    return run_scenario(item["scn"], **item["kw"])
 
 
 def run_scenario(scn: dict, *, maxsize: int = NOMAX, ttl: int = NOTTL, always_cp: bool = False,
